@@ -214,6 +214,11 @@ int flush_pubsub_msgs(void *data, const char *key, void *value) {
                 fetch_ms(&msg->evt.ts, NULL);
                 if (mm->sub) {
                     msg->evt.userdata = mm->sub->userptr;
+                    /* Like the receive loop: a oneshot subscription is gone once it fired */
+                    if ((mm->sub->flags & M_SRC_ONESHOT) &&
+                        m_map_get(mod->subscriptions, mm->sub->ps_src.topic) == mm->sub) {
+                        m_map_remove(mod->subscriptions, mm->sub->ps_src.topic);
+                    }
                 }
                 m_queue_enqueue(flushed, msg);
                 continue;
